@@ -1040,7 +1040,8 @@ class Sim:
             return lambda: ({op["dst"]: R[op["src"]].copy()}, None)
         if name == "del":
             def f():
-                del R[op["r"]][op["i"]]
+                # the index as a Python int or (every third step) a numpy integer
+                del R[op["r"]][np.int64(op["i"]) if self.step % 3 == 0 else op["i"]]
                 return {}, None
             return f
         if name == "set_atom":
